@@ -9,6 +9,7 @@
 From Coq Require Import List NArith Bool Permutation.
 From FIM Require Import Model.Cbm14Spec Proofs.Cbm14Assoc Proofs.Cbm14Merge Proofs.Cbm14Unmerge Proofs.Cbm14Inv
      Proofs.Cbm14Hist Proofs.Cbm14Dec.
+From FIM Require Gen.Cbm14Gen.
 From FIM Require Model.Cbm14Store Model.Cbm14Check Model.Cbm14Abs Proofs.Cbm14Frame Proofs.Cbm14RefBase Proofs.Cbm14RefMerge
      Proofs.Cbm14RefUnmerge Proofs.Cbm14RefSnap Proofs.Cbm14RefHist Proofs.Cbm14RefOrder
      Proofs.Cbm14RefEdge Proofs.Cbm14RefEdgeMerge Proofs.Cbm14RefEdgeOps Proofs.Cbm14RefFull
@@ -432,9 +433,28 @@ Print Assumptions C14_remerge_not_refused_refuted.
 
 Theorem C14_rollback_unknown_destroys_refuted :
   exists s1 s2, Cbm14Store.merge_adm 0 1 100 Cbm14Refusal.rm_store = Cbm14Store.OOk s1 /\ Cbm14Store.gexists 0 s1 = true /\
-                Cbm14Store.rollback 0 55 s1 = Cbm14Store.OErr Cbm14Store.EAssert s2 /\ Cbm14Store.gexists 0 s2 = false.
+                Cbm14Store.rollback_gen false 0 55 s1 = Cbm14Store.OErr Cbm14Store.EAssert s2 /\
+                Cbm14Store.gexists 0 s2 = false.
 Proof. exact Cbm14Refusal.rollback_unknown_destroys. Qed.
 Print Assumptions C14_rollback_unknown_destroys_refuted.
+
+(* the full statement for the REPAIRED statement order of ABCCBMPropertyGraph.rollback (snapshot looked up before the
+   combined graph deletes itself): rollback to an unknown or already used snapshot id is refused and changes nothing.
+   Which order the code has is read from the source on every run (translator/gen_cbm14.py): *)
+Theorem C14_rollback_unknown_refused : forall cbm sid st,
+  Cbm14Store.gexists sid st = false ->
+  Cbm14Store.rollback_gen true cbm sid st = Cbm14Store.OErr Cbm14Store.EAssert st.
+Proof. exact Cbm14Refusal.rollback_unknown_refused. Qed.
+Print Assumptions C14_rollback_unknown_refused.
+
+Theorem C14_translated : Gen.Cbm14Gen.gen_ok = true.
+Proof. exact Cbm14Refusal.gen_ok_true. Qed.
+Print Assumptions C14_translated.
+
+Theorem C14_rollback_follows_source :
+  Cbm14Store.rollback = Cbm14Store.rollback_gen Gen.Cbm14Gen.rollback_checks_first.
+Proof. exact Cbm14Refusal.rollback_follows_source. Qed.
+Print Assumptions C14_rollback_follows_source.
 
 (* ---- non-vacuity ---- *)
 Example C14_ex_consistent_family : consistent [A1; A2; A3] /\ Forall wf_adm [A1; A2; A3].
